@@ -21,7 +21,9 @@ import (
 //
 // point: p0 fresh (one local track) · p1 after SetLocalDescription(offer), gathering running ·
 // p1r answerer after SetRemoteDescription(offer): its transports start, ICE checking · p2 both descriptions set, ICE checking (no candidates
-// were exchanged, so it stays there) · p3 connected, data channel open and sending.
+// were exchanged, so it stays there) · p3 connected, data channel open and sending · p4 as p3, and the
+// data channel's OnMessage handler is parked inside the application's code (its read loop goroutine is busy)
+// until harness thread H0 releases it.
 // closers: a word over {C,G}: thread T<i> calls Close (C) or GracefulClose (G).
 // u=: thread U<j> delivers the ICE connection state <ice> (raw value) the way the agent's notifier does.
 // sched: thread names released one segment at a time; afterwards all threads are drained round-robin.
@@ -39,7 +41,7 @@ func c21Parse(a []string) (*c21Prog, bool) {
 	}
 	p := &c21Prog{point: a[1], closers: a[2], sched: a[5:]}
 	switch p.point {
-	case "p0", "p1", "p1r", "p2", "p3":
+	case "p0", "p1", "p1r", "p2", "p3", "p4":
 	default:
 		return nil, false
 	}
@@ -62,7 +64,7 @@ func c21Parse(a []string) (*c21Prog, bool) {
 		}
 	}
 	for _, n := range p.sched {
-		if len(n) != 2 || (n[0] != 'T' && n[0] != 'U') || n[1] < '0' || n[1] > '9' {
+		if len(n) != 2 || (n[0] != 'T' && n[0] != 'U' && n[0] != 'H') || n[1] < '0' || n[1] > '9' {
 			return nil, false
 		}
 	}
@@ -141,6 +143,33 @@ type c21Setup struct {
 	wantConn  webrtc.PeerConnectionState
 	wantPre   []webrtc.PeerConnectionState
 	hasRemote bool
+	// p4: the data channel's OnMessage handler parks (on its read loop goroutine) until release is closed
+	entered, release, left chan struct{}
+	releaseOnce          sync.Once
+}
+
+func (st *c21Setup) releaseHandler() {
+	if st.release != nil {
+		st.releaseOnce.Do(func() { close(st.release) })
+	}
+}
+
+// handlerBusy: the read loop goroutine is inside the application's handler.
+func (st *c21Setup) handlerBusy() bool {
+	if st.entered == nil {
+		return false
+	}
+	select {
+	case <-st.entered:
+	default:
+		return false
+	}
+	select {
+	case <-st.left:
+		return false
+	default:
+		return true
+	}
 }
 
 func (st *c21Setup) handlerLog() []webrtc.PeerConnectionState {
@@ -151,6 +180,7 @@ func (st *c21Setup) handlerLog() []webrtc.PeerConnectionState {
 }
 
 func (st *c21Setup) cleanup() {
+	st.releaseHandler()
 	if st.stopSend != nil {
 		select {
 		case <-st.stopSend:
@@ -268,10 +298,21 @@ func c21MakeSetup(point string) (*c21Setup, string) {
 		st.hasRemote = true
 		st.wantConn = webrtc.PeerConnectionStateConnecting
 		st.wantPre = []webrtc.PeerConnectionState{webrtc.PeerConnectionStateConnecting}
-	case "p3":
+	case "p3", "p4":
 		dc, err := a.CreateDataChannel("d", nil)
 		if err != nil {
 			return st, "inconclusive dc"
+		}
+		if point == "p4" {
+			st.entered, st.release, st.left = make(chan struct{}), make(chan struct{}), make(chan struct{})
+			var first sync.Once
+			dc.OnMessage(func(webrtc.DataChannelMessage) {
+				first.Do(func() {
+					close(st.entered)
+					<-st.release // application work on the read loop goroutine
+					close(st.left)
+				})
+			})
 		}
 		opened := make(chan struct{})
 		dc.OnOpen(func() { close(opened) })
@@ -311,6 +352,13 @@ func c21MakeSetup(point string) (*c21Setup, string) {
 		}()
 		st.wantConn = webrtc.PeerConnectionStateConnected
 		st.wantPre = []webrtc.PeerConnectionState{webrtc.PeerConnectionStateConnecting, webrtc.PeerConnectionStateConnected}
+		if point == "p4" {
+			select {
+			case <-st.entered: // an echoed message is now being handled: the read loop goroutine is parked
+			case <-time.After(10 * time.Second):
+				return st, "inconclusive handler-not-entered"
+			}
+		}
 	}
 	// the point is reached when the connection state and the handler log are what the point promises
 	deadline := time.Now().Add(6 * time.Second)
@@ -345,7 +393,7 @@ func c21Run(p *c21Prog) string {
 	pre := len(st.handlerLog())
 
 	s := NewSched()
-	s.Families = []string{"close.", "ucs."}
+	s.Families = []string{"close.", "ucs.", "dc."}
 	s.BlockTimeout = 20 * time.Second
 	known := func() bool {
 		gid := curGID()
@@ -358,7 +406,9 @@ func c21Run(p *c21Prog) string {
 	webrtc.VerifSetYield(func(label string) {
 		// only the close()/updateConnectionState points, and only for threads of this program: the
 		// library's own goroutines (ICE agent notifier, operations worker) run freely
-		if (strings.HasPrefix(label, "close.") || strings.HasPrefix(label, "ucs.")) && known() {
+		// (of the data-channel points only the receive on the read loop's channel inside d.GracefulClose)
+		if (strings.HasPrefix(label, "close.") || strings.HasPrefix(label, "ucs.") ||
+			label == "dc.close.wait" || label == "dc.close.woke") && known() {
 			s.Yield(label)
 		}
 	})
@@ -378,8 +428,8 @@ func c21Run(p *c21Prog) string {
 				_ = a.Close()
 			}
 			o := "r" + strconv.Itoa(i) + "=" + b2s(a.SignalingState() == webrtc.SignalingStateClosed)
-			if graceful {
-				o += "/" + strconv.Itoa(int(a.ConnectionState()))
+			if graceful { // … and whether a data-channel read loop is still busy in the application's handler
+				o += "/" + strconv.Itoa(int(a.ConnectionState())) + "/" + b2s(st.handlerBusy())
 			}
 			rmu.Lock()
 			rets[i] = o
@@ -390,6 +440,13 @@ func c21Run(p *c21Prog) string {
 		name := fmt.Sprintf("U%d", j)
 		names = append(names, name)
 		s.Go(name, func() { webrtc.VerifICEStateChange(a, webrtc.ICEConnectionState(ice)) })
+	}
+	if p.point == "p4" {
+		names = append(names, "H0")
+		s.Go("H0", func() { // the application's handler returns
+			st.releaseHandler()
+			<-st.left
+		})
 	}
 	finished := map[string]bool{}
 	hung := false
@@ -419,7 +476,8 @@ func c21Run(p *c21Prog) string {
 		}
 		if state == thParked {
 			cd, gd := webrtc.VerifCloseChannels(a)
-			if (label == "close.cwait" && !cd) || (label == "close.gwait" && !gd) {
+			if (label == "close.cwait" && !cd) || (label == "close.gwait" && !gd) ||
+				(label == "dc.close.wait" && st.handlerBusy()) {
 				return "blocked" // the receive would block; a blocked segment has no effect
 			}
 		}
@@ -448,7 +506,7 @@ func c21Run(p *c21Prog) string {
 	for pass := 0; pass < 40 && !hung; pass++ {
 		progressed := false
 		for _, n := range names {
-			if finished[n] || hung {
+			if finished[n] || hung || n == "H0" {
 				continue
 			}
 			r := step(n)
@@ -456,6 +514,12 @@ func c21Run(p *c21Prog) string {
 			if r != "blocked" && r != "skip" {
 				progressed = true
 			}
+		}
+		// the application's handler returns only when nothing else can run any more
+		if !progressed && !hung && p.point == "p4" && !finished["H0"] {
+			r := step("H0")
+			ev = append(ev, "H0:"+r)
+			progressed = r != "blocked" && r != "skip"
 		}
 		if !progressed {
 			break
@@ -563,14 +627,17 @@ func init() {
 		Rule: "one real PeerConnection per op line, brought to one of five points of setup (p0 fresh with a local track; " +
 			"p1 after SetLocalDescription(offer) while gathering; p1r answerer after SetRemoteDescription(offer), ICE checking; p2 both " +
 			"descriptions applied, ICE checking against a peer it cannot reach; p3 connected over loopback with an open data " +
-			"channel that keeps sending), then closed by 1–4 harness threads calling Close or GracefulClose (random mix) while " +
+			"channel that keeps sending; p4 as p3 with the data channel's OnMessage handler parked inside the application's " +
+			"code, i.e. its read loop goroutine busy, until the schedulable thread H0 lets it return), then closed by 1–4 harness threads calling Close or GracefulClose (random mix) while " +
 			"0–4 further threads deliver an ICE state change (failed, disconnected, connected, …) through the transport's own " +
 			"callback path. The schedule — which thread runs its next segment between two verifYield points (after the first " +
 			"critical section of close(), around both channel receives, after the signaling state is set, between computing " +
 			"and storing in updateConnectionState, after it, between the two deferred channel closes) — is drawn from the " +
 			"seeded PRNG in four styles (drain only; blind random; all callbacks compute first; all closers pass their first " +
-			"critical section first), then every thread is drained round-robin. Afterwards every mutating API is called. " +
-			"Observed: the trace of yield labels, what each call saw on return, SignalingState, ConnectionState, the handler " +
+			"critical section first), then every thread is drained round-robin (H0 only when nothing else can run). Afterwards every mutating API is called. " +
+			"A GracefulClose joins the data-channel read loops (yield points around that receive): it must be blocked " +
+			"while the handler is parked and must not have returned while the read loop is busy. " +
+			"Observed: the trace of yield labels, what each call saw on return (incl. whether the read loop was still busy), SignalingState, ConnectionState, the handler " +
 			"sequence since the closing started, the error class of the ten API calls, the states again, and — after a " +
 			"GracefulClose — the number of goroutines with pion frames that did not exist before the run (runtime " +
 			"observation, polled for 3 s). The Lean simulator applies only proved core actions and must reproduce the line. " +
@@ -592,7 +659,7 @@ func init() {
 
 				return 0
 			}
-			points := []string{"p0", "p1", "p1r", "p2", "p3"}
+			points := []string{"p0", "p1", "p1r", "p2", "p3", "p4"}
 			ices := []int{6, 6, 6, 5, 5, 3, 3, 2, 1, 4, 7, 6, 5, 0, 8}
 			bad := []string{
 				"run p9 C u=- sched", "run p0 CX u=- sched", "run p0 CCCCC u=- sched T0", "run p0 C u=9 sched",
@@ -605,7 +672,7 @@ func init() {
 
 					continue
 				}
-				point := points[pick([]int{3, 2, 2, 2, 3})]
+				point := points[pick([]int{3, 2, 2, 2, 2, 3})]
 				nc := 1 + pick([]int{2, 4, 3, 2})
 				closers := ""
 				for i := 0; i < nc; i++ {
@@ -626,6 +693,11 @@ func init() {
 				}
 				for j := 0; j < nu; j++ {
 					names = append(names, fmt.Sprintf("U%d", j))
+				}
+				if point == "p4" {
+					if r.Intn(3) == 0 { // the application's handler returning is a schedulable event; mostly left to the drain
+						names = append(names, "H0")
+					}
 				}
 				sched := []string{}
 				style := pick([]int{1, 4, 3, 3})
